@@ -612,4 +612,320 @@ theorem packBody_spec (msg bb : Bytes) (b : Body) (comp comp' : Option CompMap)
     simp only [unpackBody, Body.realType, k1, k2, k3, k4, k5, k6, k7, k8, k9, k10, k11, k12, if_false, this]
     rfl
 
+/-! ## Resources -/
+
+def WFResource (r : Resource) : Prop :=
+  Canonical r.hdr.name ∧ r.hdr.cls < 65536 ∧ r.hdr.ttl < 4294967296 ∧ WFBody r.body
+
+theorem realType_lt {b : Body} (h : WFBody b) : b.realType < 65536 := by
+  cases b <;> simp [Body.realType, typeA, typeAAAA, typeNS, typeCNAME, typePTR, typeMX, typeTXT, typeSOA,
+    typeSRV, typeOPT, typeSVCB, typeHTTPS]
+  exact h.1
+
+/-- **One resource record**: header (with the `Type` of the body and the final `Length`) and
+body are read back; the result is the record as `Pack` normalises it. -/
+theorem packResource_spec (msg bs : Bytes) (r : Resource) (comp comp' : Option CompMap)
+    (hinv : CompInvOpt msg comp) (hwf : WFResource r)
+    (hp : packResource r msg.length comp = .ok (bs, comp')) :
+    comp'.isNone = comp.isNone ∧ CompInvOpt (msg ++ bs) comp' ∧
+    ∃ len, ∀ post, Agrees comp.isNone (unpackResource (msg ++ bs ++ post) msg.length)
+      (normResource r len, msg.length + bs.length) := by
+  rcases hwf with ⟨hc, hcls, httl, hb⟩
+  have htyp := realType_lt hb
+  unfold packResource at hp
+  cases hn : packName r.hdr.name msg.length comp with
+  | error e => rw [hn] at hp; simp at hp
+  | ok res =>
+    rcases res with ⟨nb, c1⟩
+    rw [hn] at hp
+    simp only [] at hp
+    cases hbp : packBody r.body (msg.length + nb.length + 10) c1 with
+    | error e => rw [hbp] at hp; simp at hp
+    | ok res2 =>
+      rcases res2 with ⟨bb, c2⟩
+      rw [hbp] at hp
+      simp only [] at hp
+      split at hp
+      · simp at hp
+      · rename_i hlen
+        simp only [Except.ok.injEq, Prod.mk.injEq] at hp
+        rcases hp with ⟨rfl, rfl⟩
+        have hlen' : bb.length < 65536 := by omega
+        rcases packName_spec msg r.hdr.name nb comp c1 hinv hc hn with ⟨g1, g2, g3⟩
+        have hpos : msg.length + nb.length + 10 =
+            (msg ++ nb ++ (u16 r.body.realType ++ u16 r.hdr.cls ++ u32 r.hdr.ttl ++ u16 bb.length)).length := by
+          simp [u16, u32]; omega
+        rw [hpos] at hbp
+        rcases packBody_spec _ bb r.body c1 c2 (g2.append _) hb hbp with ⟨k1, k2, k3⟩
+        refine ⟨by rw [k1, g1], by simpa [List.append_assoc] using k2, bb.length, fun post => ?_⟩
+        rw [g1] at k3
+        have hF : msg ++ (nb ++ u16 r.body.realType ++ u16 r.hdr.cls ++ u32 r.hdr.ttl ++ u16 bb.length ++ bb) ++ post =
+            msg ++ nb ++ (u16 r.body.realType ++ u16 r.hdr.cls ++ u32 r.hdr.ttl ++ u16 bb.length ++ bb ++ post) := by
+          simp
+        have hF2 : msg ++ (nb ++ u16 r.body.realType ++ u16 r.hdr.cls ++ u32 r.hdr.ttl ++ u16 bb.length ++ bb) ++ post =
+            msg ++ nb ++ (u16 r.body.realType ++ u16 r.hdr.cls ++ u32 r.hdr.ttl ++ u16 bb.length) ++ bb ++ post := by
+          simp
+        have r1 := g3 (u16 r.body.realType ++ u16 r.hdr.cls ++ u32 r.hdr.ttl ++ u16 bb.length ++ bb ++ post)
+        have r2 := k3 post
+        rw [← hF] at r1
+        rw [← hF2, ← hpos] at r2
+        rcases r1 with r1 | ⟨hs, r1⟩
+        · have u1 : u16At (msg ++ (nb ++ u16 r.body.realType ++ u16 r.hdr.cls ++ u32 r.hdr.ttl ++ u16 bb.length ++ bb) ++ post)
+              (msg.length + nb.length) = .ok (r.body.realType, msg.length + nb.length + 2) :=
+            u16At_drop (rest := u16 r.hdr.cls ++ u32 r.hdr.ttl ++ u16 bb.length ++ bb ++ post) (by simp) htyp
+          have u2 : u16At (msg ++ (nb ++ u16 r.body.realType ++ u16 r.hdr.cls ++ u32 r.hdr.ttl ++ u16 bb.length ++ bb) ++ post)
+              (msg.length + nb.length + 2) = .ok (r.hdr.cls, msg.length + nb.length + 2 + 2) :=
+            u16At_drop (rest := u32 r.hdr.ttl ++ u16 bb.length ++ bb ++ post) (by simp [u16, Nat.add_assoc]) hcls
+          have u3 : u32At (msg ++ (nb ++ u16 r.body.realType ++ u16 r.hdr.cls ++ u32 r.hdr.ttl ++ u16 bb.length ++ bb) ++ post)
+              (msg.length + nb.length + 2 + 2) = .ok (r.hdr.ttl, msg.length + nb.length + 2 + 2 + 4) :=
+            u32At_drop (rest := u16 bb.length ++ bb ++ post) (by simp [u16, Nat.add_assoc]) httl
+          have u4 : u16At (msg ++ (nb ++ u16 r.body.realType ++ u16 r.hdr.cls ++ u32 r.hdr.ttl ++ u16 bb.length ++ bb) ++ post)
+              (msg.length + nb.length + 2 + 2 + 4) = .ok (bb.length, msg.length + nb.length + 2 + 2 + 4 + 2) :=
+            u16At_drop (rest := bb ++ post) (by simp [u16, u32, Nat.add_assoc]) hlen'
+          have h10 : msg.length + nb.length + 2 + 2 + 4 + 2 = msg.length + nb.length + 10 := by omega
+          rw [h10] at u4
+          rcases r2 with r2 | ⟨hs, r2⟩
+          · left
+            simp only [unpackResource, unpackRHeader, r1, u1, u2, u3, u4, r2]
+            simp [normResource, u16, u32]
+            omega
+          · right
+            exact ⟨hs, by simp only [unpackResource, unpackRHeader, r1, u1, u2, u3, u4, r2]⟩
+        · right
+          exact ⟨hs, by simp only [unpackResource, unpackRHeader, r1]⟩
+
+/-! ## Sections -/
+
+theorem packQuestions_spec : ∀ (qs : List Question) (msg bs : Bytes) (comp comp' : Option CompMap),
+    CompInvOpt msg comp → (∀ q ∈ qs, WFQuestion q) →
+    packQuestions qs msg.length comp = .ok (bs, comp') →
+    comp'.isNone = comp.isNone ∧ CompInvOpt (msg ++ bs) comp' ∧
+    ∀ post, Agrees comp.isNone (unpackQuestions (msg ++ bs ++ post) qs.length msg.length)
+      (qs, msg.length + bs.length) := by
+  intro qs
+  induction qs with
+  | nil =>
+    intro msg bs comp comp' hinv _ hp
+    simp only [packQuestions, Except.ok.injEq, Prod.mk.injEq] at hp
+    rcases hp with ⟨rfl, rfl⟩
+    exact ⟨rfl, by simpa using hinv, fun post => Or.inl (by simp [unpackQuestions])⟩
+  | cons q qs ih =>
+    intro msg bs comp comp' hinv hwf hp
+    unfold packQuestions at hp
+    cases h1 : packQuestion q msg.length comp with
+    | error e => rw [h1] at hp; simp at hp
+    | ok res =>
+      rcases res with ⟨b1, c1⟩
+      rw [h1] at hp
+      simp only [] at hp
+      have hpos : msg.length + b1.length = (msg ++ b1).length := by simp
+      rw [hpos] at hp
+      cases h2 : packQuestions qs (msg ++ b1).length c1 with
+      | error e => rw [h2] at hp; simp at hp
+      | ok res2 =>
+        rcases res2 with ⟨b2, c2⟩
+        rw [h2] at hp
+        simp only [Except.ok.injEq, Prod.mk.injEq] at hp
+        rcases hp with ⟨rfl, rfl⟩
+        rcases packQuestion_spec msg b1 q comp c1 hinv (hwf q (by simp)) h1 with ⟨g1, g2, g3⟩
+        rcases ih (msg ++ b1) b2 c1 c2 g2 (fun x hx => hwf x (by simp [hx])) h2 with ⟨k1, k2, k3⟩
+        refine ⟨by rw [k1, g1], by simpa [List.append_assoc] using k2, fun post => ?_⟩
+        rw [g1] at k3
+        have hF : msg ++ (b1 ++ b2) ++ post = msg ++ b1 ++ (b2 ++ post) := by simp
+        have hF2 : msg ++ (b1 ++ b2) ++ post = msg ++ b1 ++ b2 ++ post := by simp
+        have r1 := g3 (b2 ++ post)
+        have r2 := k3 post
+        rw [← hF] at r1
+        rw [← hF2, ← hpos] at r2
+        rcases r1 with r1 | ⟨hs, r1⟩
+        · rcases r2 with r2 | ⟨hs, r2⟩
+          · left
+            simp only [List.length_cons, unpackQuestions, r1, r2]
+            simp; omega
+          · right; exact ⟨hs, by simp only [List.length_cons, unpackQuestions, r1, r2]⟩
+        · right; exact ⟨hs, by simp only [List.length_cons, unpackQuestions, r1]⟩
+
+theorem packResources_spec : ∀ (rs : List Resource) (msg bs : Bytes) (comp comp' : Option CompMap),
+    CompInvOpt msg comp → (∀ r ∈ rs, WFResource r) →
+    packResources rs msg.length comp = .ok (bs, comp') →
+    comp'.isNone = comp.isNone ∧ CompInvOpt (msg ++ bs) comp' ∧
+    ∃ lens, lens.length = rs.length ∧
+      ∀ post, Agrees comp.isNone (unpackResources (msg ++ bs ++ post) rs.length msg.length)
+        (List.zipWith normResource rs lens, msg.length + bs.length) := by
+  intro rs
+  induction rs with
+  | nil =>
+    intro msg bs comp comp' hinv _ hp
+    simp only [packResources, Except.ok.injEq, Prod.mk.injEq] at hp
+    rcases hp with ⟨rfl, rfl⟩
+    exact ⟨rfl, by simpa using hinv, [], rfl, fun post => Or.inl (by simp [unpackResources])⟩
+  | cons r rs ih =>
+    intro msg bs comp comp' hinv hwf hp
+    unfold packResources at hp
+    cases h1 : packResource r msg.length comp with
+    | error e => rw [h1] at hp; simp at hp
+    | ok res =>
+      rcases res with ⟨b1, c1⟩
+      rw [h1] at hp
+      simp only [] at hp
+      have hpos : msg.length + b1.length = (msg ++ b1).length := by simp
+      rw [hpos] at hp
+      cases h2 : packResources rs (msg ++ b1).length c1 with
+      | error e => rw [h2] at hp; simp at hp
+      | ok res2 =>
+        rcases res2 with ⟨b2, c2⟩
+        rw [h2] at hp
+        simp only [Except.ok.injEq, Prod.mk.injEq] at hp
+        rcases hp with ⟨rfl, rfl⟩
+        rcases packResource_spec msg b1 r comp c1 hinv (hwf r (by simp)) h1 with ⟨g1, g2, len, g3⟩
+        rcases ih (msg ++ b1) b2 c1 c2 g2 (fun x hx => hwf x (by simp [hx])) h2 with ⟨k1, k2, lens, hl, k3⟩
+        refine ⟨by rw [k1, g1], by simpa [List.append_assoc] using k2, len :: lens, by simp [hl], fun post => ?_⟩
+        rw [g1] at k3
+        have hF : msg ++ (b1 ++ b2) ++ post = msg ++ b1 ++ (b2 ++ post) := by simp
+        have hF2 : msg ++ (b1 ++ b2) ++ post = msg ++ b1 ++ b2 ++ post := by simp
+        have r1 := g3 (b2 ++ post)
+        have r2 := k3 post
+        rw [← hF] at r1
+        rw [← hF2, ← hpos] at r2
+        rcases r1 with r1 | ⟨hs, r1⟩
+        · rcases r2 with r2 | ⟨hs, r2⟩
+          · left
+            simp only [List.length_cons, unpackResources, r1, r2]
+            simp; omega
+          · right; exact ⟨hs, by simp only [List.length_cons, unpackResources, r1, r2]⟩
+        · right; exact ⟨hs, by simp only [List.length_cons, unpackResources, r1]⟩
+
+/-! ## The whole message -/
+
+theorem bits_lt (h : Header) (hr : h.rCode < 16) : h.bits < 65536 := by
+  have hb : ∀ (b : Bool) (v : Nat), v < 65536 → bitIf b v < 2 ^ 16 := by
+    intro b v hv; cases b <;> simp [bitIf] <;> omega
+  have h0 : h.opCode * 2048 % 65536 < 2 ^ 16 := by omega
+  have h1 : h.rCode < 2 ^ 16 := by omega
+  unfold Header.bits
+  have := Nat.or_lt_two_pow (Nat.or_lt_two_pow (Nat.or_lt_two_pow (Nat.or_lt_two_pow (Nat.or_lt_two_pow
+    (Nat.or_lt_two_pow (Nat.or_lt_two_pow (Nat.or_lt_two_pow h0 h1) (hb h.recursionAvailable 128 (by omega)))
+    (hb h.recursionDesired 256 (by omega))) (hb h.truncated 512 (by omega))) (hb h.authoritative 1024 (by omega)))
+    (hb h.response 32768 (by omega))) (hb h.authenticData 32 (by omega))) (hb h.checkingDisabled 16 (by omega))
+  simpa using this
+
+theorem unpackWireHeader_pack (h : Header) (nq na nu nr : Nat) (rest : Bytes)
+    (hid : h.id < 65536) (hr : h.rCode < 16)
+    (h1 : nq < 65536) (h2 : na < 65536) (h3 : nu < 65536) (h4 : nr < 65536) :
+    unpackWireHeader (packHeader h nq na nu nr ++ rest) =
+      .ok { id := h.id, bits := h.bits, nq := nq, na := na, nu := nu, nr := nr } := by
+  have hb := bits_lt h hr
+  simp only [packHeader, u16, unpackWireHeader, List.cons_append, List.nil_append]
+  have e : ∀ v, v < 65536 → v / 256 % 256 * 256 + v % 256 = v := by intro v hv; omega
+  simp only [e _ hid, e _ hb, e _ h1, e _ h2, e _ h3, e _ h4]
+
+def WFMessage (m : Message) : Prop :=
+  m.hdr.id < 65536 ∧ m.hdr.opCode < 16 ∧ m.hdr.rCode < 16 ∧
+  (∀ q ∈ m.questions, WFQuestion q) ∧ (∀ r ∈ m.answers, WFResource r) ∧
+  (∀ r ∈ m.authorities, WFResource r) ∧ (∀ r ∈ m.additionals, WFResource r)
+
+/-- `m` as `Pack` leaves it (and as `Unpack` of the packed bytes returns it): every record header
+carries the body's `Type` and the packed body `Length`. -/
+def normMessage (m : Message) (l1 l2 l3 : List Nat) : Message :=
+  { m with answers := List.zipWith normResource m.answers l1,
+           authorities := List.zipWith normResource m.authorities l2,
+           additionals := List.zipWith normResource m.additionals l3 }
+
+theorem packMessage_spec (m : Message) (comp : Option CompMap) (bytes : Bytes)
+    (hcomp : comp = none ∨ comp = some [])
+    (hwf : WFMessage m) (hp : packMessageWith m comp = .ok bytes) :
+    ∃ l1 l2 l3, l1.length = m.answers.length ∧ l2.length = m.authorities.length ∧
+      l3.length = m.additionals.length ∧
+      Agrees comp.isNone (unpackMessage bytes) (normMessage m l1 l2 l3) := by
+  rcases hwf with ⟨hid, hop, hrc, hq, han, hau, had⟩
+  unfold packMessageWith at hp
+  split at hp
+  · simp at hp
+  · rename_i c1
+    split at hp
+    · simp at hp
+    · rename_i c2
+      split at hp
+      · simp at hp
+      · rename_i c3
+        split at hp
+        · simp at hp
+        · rename_i c4
+          generalize hm0 : packHeader m.hdr m.questions.length m.answers.length m.authorities.length
+            m.additionals.length = msg0 at hp
+          have hl0 : msg0.length = 12 := by rw [← hm0]; simp [packHeader, u16]
+          have hinv0 : CompInvOpt msg0 comp := by
+            rcases hcomp with rfl | rfl
+            · trivial
+            · exact compInv_nil _
+          rw [← hl0] at hp
+          cases h1 : packQuestions m.questions msg0.length comp with
+          | error e => rw [h1] at hp; simp at hp
+          | ok res1 =>
+            rcases res1 with ⟨b1, k1⟩
+            rw [h1] at hp
+            simp only [] at hp
+            have p1 : msg0.length + b1.length = (msg0 ++ b1).length := by simp
+            rw [p1] at hp
+            cases h2 : packResources m.answers (msg0 ++ b1).length k1 with
+            | error e => rw [h2] at hp; simp at hp
+            | ok res2 =>
+              rcases res2 with ⟨b2, k2⟩
+              rw [h2] at hp
+              simp only [] at hp
+              have p2 : (msg0 ++ b1).length + b2.length = (msg0 ++ b1 ++ b2).length := by simp; omega
+              rw [p2] at hp
+              cases h3 : packResources m.authorities (msg0 ++ b1 ++ b2).length k2 with
+              | error e => rw [h3] at hp; simp at hp
+              | ok res3 =>
+                rcases res3 with ⟨b3, k3⟩
+                rw [h3] at hp
+                simp only [] at hp
+                have p3 : (msg0 ++ b1 ++ b2).length + b3.length = (msg0 ++ b1 ++ b2 ++ b3).length := by simp; omega
+                rw [p3] at hp
+                cases h4 : packResources m.additionals (msg0 ++ b1 ++ b2 ++ b3).length k3 with
+                | error e => rw [h4] at hp; simp at hp
+                | ok res4 =>
+                  rcases res4 with ⟨b4, k4⟩
+                  rw [h4] at hp
+                  simp only [Except.ok.injEq] at hp
+                  subst hp
+                  rcases packQuestions_spec m.questions msg0 b1 comp k1 hinv0 hq h1 with ⟨e1, i1, r1⟩
+                  rcases packResources_spec m.answers (msg0 ++ b1) b2 k1 k2 i1 han h2 with ⟨e2, i2, l1, hl1, r2⟩
+                  rcases packResources_spec m.authorities (msg0 ++ b1 ++ b2) b3 k2 k3 i2 hau h3 with ⟨e3, i3, l2, hl2, r3⟩
+                  rcases packResources_spec m.additionals (msg0 ++ b1 ++ b2 ++ b3) b4 k3 k4 i3 had h4 with ⟨e4, i4, l3, hl3, r4⟩
+                  refine ⟨l1, l2, l3, hl1, hl2, hl3, ?_⟩
+                  rw [e1] at r2
+                  rw [e2, e1] at r3
+                  rw [e3, e2, e1] at r4
+                  have hw := unpackWireHeader_pack m.hdr m.questions.length m.answers.length m.authorities.length
+                    m.additionals.length (b1 ++ b2 ++ b3 ++ b4) hid hrc (by omega) (by omega) (by omega) (by omega)
+                  rw [hm0] at hw
+                  have hF : msg0 ++ b1 ++ b2 ++ b3 ++ b4 = msg0 ++ (b1 ++ b2 ++ b3 ++ b4) := by simp
+                  have q1 := r1 (b2 ++ b3 ++ b4)
+                  have q2 := r2 (b3 ++ b4)
+                  have q3 := r3 b4
+                  have q4 := r4 []
+                  have f1 : msg0 ++ b1 ++ (b2 ++ b3 ++ b4) = msg0 ++ b1 ++ b2 ++ b3 ++ b4 := by simp
+                  have f2 : msg0 ++ b1 ++ b2 ++ (b3 ++ b4) = msg0 ++ b1 ++ b2 ++ b3 ++ b4 := by simp
+                  have f4 : msg0 ++ b1 ++ b2 ++ b3 ++ b4 ++ [] = msg0 ++ b1 ++ b2 ++ b3 ++ b4 := by simp
+                  rw [f1, hl0] at q1
+                  rw [f2, ← p1, hl0] at q2
+                  rw [← p2, ← p1, hl0] at q3
+                  rw [f4, ← p3, ← p2, ← p1, hl0] at q4
+                  rw [← hF] at hw
+                  have hhdr := header_bits_roundtrip m.hdr hop hrc
+                  unfold unpackMessage unpackMessageOff
+                  simp only [hw]
+                  rcases q1 with q1 | ⟨hs, q1⟩
+                  · rcases q2 with q2 | ⟨hs, q2⟩
+                    · rcases q3 with q3 | ⟨hs, q3⟩
+                      · rcases q4 with q4 | ⟨hs, q4⟩
+                        · left
+                          simp only [q1, q2, q3, q4, hhdr, normMessage]
+                        · right; exact ⟨hs, by simp only [q1, q2, q3, q4]⟩
+                      · right; exact ⟨hs, by simp only [q1, q2, q3]⟩
+                    · right; exact ⟨hs, by simp only [q1, q2]⟩
+                  · right; exact ⟨hs, by simp only [q1]⟩
+
 end NetVerif.Proofs.DnsMsg
